@@ -84,11 +84,15 @@ Definition builtin_name (n : str) : bool := match assoc_str builtin_idents n wit
 (** names whose spelling matters: the join aliases, the constants, the bound names *)
 Definition special (bs : list str) (n : str) : bool := alias_name n || builtin_name n || bound bs n.
 
+(** the name an erased unquoted identifier gets: a run of 'x' longer than every bound name, so that it
+    is neither bound, nor a constant, nor a join alias *)
+Definition erased (bs : list str) : str := repeat 120%N (S (fold_right (fun k m => Nat.max (length k) m) 0 bs)).
+
 (** an identifier in expression position: a quoted name is content unless it spells a join alias
     (the SQL text "$left" IS the alias); an unquoted one is content unless it is special *)
 Definition sk_ident (bs : list str) (i : ident) : ident :=
   mkIdent (if iquoted i then (if alias_name (iname i) then iname i else [])
-           else if special bs (iname i) then iname i else []) None (iquoted i).
+           else if special bs (iname i) then iname i else erased bs) None (iquoted i).
 (** a name that is only ever printed (table, alias, `as`, render names): content *)
 Definition sk_name (i : ident) : ident := mkIdent [] None (iquoted i).
 (** a name that is structure (function, join kind, let name): kept *)
@@ -150,6 +154,35 @@ Proof. vm_compute. split; reflexivity. Qed.
 Lemma true_is_builtin : builtin_name w_true = true.
 Proof. vm_compute. reflexivity. Qed.
 
+Lemma erased_cons bs : exists r, erased bs = 120%N :: r.
+Proof. unfold erased. eexists. reflexivity. Qed.
+
+Lemma erased_not_alias bs : alias_name (erased bs) = false.
+Proof. destruct (erased_cons bs) as [r ->]. reflexivity. Qed.
+
+Lemma builtins_not_x : forallb (fun kv => match fst kv with c :: _ => negb (c =? 120)%N | [] => true end) builtin_idents = true.
+Proof. vm_compute. reflexivity. Qed.
+
+Lemma erased_not_builtin bs : builtin_name (erased bs) = false.
+Proof.
+  destruct (erased_cons bs) as [r ->]. unfold builtin_name. pose proof builtins_not_x as H.
+  induction builtin_idents as [|[k v] t IH]; [reflexivity|]. cbn [forallb fst] in H. apply andb_prop in H as [Hk Ht].
+  cbn [assoc_str]. destruct k as [|c k']; cbn [str_eqb]; [apply IH; exact Ht|].
+  apply Bool.negb_true_iff in Hk. rewrite Hk. cbn [andb]. apply IH. exact Ht.
+Qed.
+
+Lemma str_eqb_length a : forall b, str_eqb a b = true -> length a = length b.
+Proof. induction a as [|x a IH]; intros [|y b] H; cbn [str_eqb] in H; try discriminate; [reflexivity|]. apply andb_prop in H as [_ H]. cbn [length]. f_equal. apply IH. exact H. Qed.
+
+Lemma erased_unbound bs : bound bs (erased bs) = false.
+Proof.
+  unfold bound. apply Bool.not_true_is_false. intros H. apply existsb_exists in H as (k & Hin & Hk).
+  apply str_eqb_length in Hk. unfold erased in Hk. rewrite repeat_length in Hk.
+  assert (G : length k <= fold_right (fun k m => Nat.max (length k) m) 0 bs).
+  { clear Hk. induction bs as [|b r IH]; [contradiction|]. cbn [fold_right]. destruct Hin as [<-|Hin]; [lia|]. specialize (IH Hin). lia. }
+  lia.
+Qed.
+
 (** ** scopes *)
 Definition scope_sim (sc sc' : scope) : Prop :=
   Forall2 (fun kv kv' => fst kv = fst kv' /\ sh (snd kv) = sh (snd kv')) sc sc'.
@@ -175,7 +208,7 @@ Section Expr.
 Variables (sc sc' : scope) (m : mode).
 Hypothesis Hsc : scope_sim sc sc'.
 Let bs := map fst sc'.
-Hypothesis Hempty : bound bs [] = false.
+Let Hempty : bound bs (erased bs) = false := erased_unbound bs.
 
 Lemma alias_name_empty : alias_name [] = false.
 Proof. reflexivity. Qed.
@@ -184,7 +217,7 @@ Lemma sk_ident_alias i : ident_is_alias (sk_ident bs i) = ident_is_alias i.
 Proof.
   unfold ident_is_alias, sk_ident. cbn [iquoted iname]. destruct (iquoted i); [reflexivity|]. cbn [negb andb].
   unfold special. fold (alias_name (iname i)). destruct (alias_name (iname i)) eqn:E; cbn [orb]; [exact E|].
-  destruct (builtin_name (iname i) || bound bs (iname i)); [exact E|reflexivity].
+  destruct (builtin_name (iname i) || bound bs (iname i)); [exact E|exact (erased_not_alias bs)].
 Qed.
 
 Lemma write_parts_sk : forall ps first, res_sim (write_parts m first (map (sk_ident bs) ps)) (write_parts m first ps).
@@ -198,11 +231,13 @@ Lemma mentions_alias_sk n : alias_name n = true -> forall e, mentions n (sk_e bs
 Proof.
   intros Hn. assert (Hid : forall i, str_eqb (iname (sk_ident bs i)) n = str_eqb (iname i) n).
   { intros i. unfold sk_ident. cbn [iname]. assert (Hne : str_eqb [] n = false) by (destruct n; [discriminate Hn|reflexivity]).
+    assert (Hne' : str_eqb (erased bs) n = false).
+    { apply str_eqb_neq. intros Heq. rewrite <- Heq, erased_not_alias in Hn. discriminate. }
     destruct (iquoted i).
     - destruct (alias_name (iname i)) eqn:E; [reflexivity|]. rewrite Hne. symmetry. apply str_eqb_neq. intros Heq. rewrite Heq in E. congruence.
     - unfold special. destruct (alias_name (iname i)) eqn:E; cbn [orb]; [reflexivity|].
       destruct (builtin_name (iname i) || bound bs (iname i)); [reflexivity|].
-      rewrite Hne. symmetry. apply str_eqb_neq. intros Heq. rewrite Heq in E. congruence. }
+      rewrite Hne'. symmetry. apply str_eqb_neq. intros Heq. rewrite Heq in E. congruence. }
   induction e using expr_ind'; cbn [sk_e mentions].
   - induction ps as [|p r IHp]; cbn [map existsb]; [reflexivity|]. rewrite Hid, IHp. reflexivity.
   - rewrite IHe1, IHe2. reflexivity.
@@ -250,11 +285,11 @@ Proof.
            destruct (scope_get sc (iname p)), (scope_get sc' (iname p)); try contradiction; [exact Hg|].
            destruct (assoc_str builtin_idents (iname p)); [reflexivity|]. destruct (mode_eqb m ModeLet); [exact I|exact Hgen].
         -- apply Bool.orb_false_iff in Es as [Es Eb]. apply Bool.orb_false_iff in Es as [Ea Ebi].
-           unfold bs in Eb, Hempty. rewrite scope_get_bound in Eb.
-           rewrite <- (scope_sim_keys _ _ Hsc), scope_get_bound in Hempty.
-           destruct (scope_get sc []); [discriminate|]. destruct (scope_get sc' (iname p)); [discriminate|].
-           unfold builtin_name in Ebi. pose proof empty_not_builtin as Hnb. unfold builtin_name in Hnb.
-           destruct (assoc_str builtin_idents []); [discriminate|]. destruct (assoc_str builtin_idents (iname p)); [discriminate|].
+           pose proof Hempty as He. unfold bs in Eb. rewrite scope_get_bound in Eb.
+           unfold bs in He at 1. rewrite <- (scope_sim_keys _ _ Hsc), scope_get_bound in He. fold bs in He.
+           destruct (scope_get sc (erased bs)); [discriminate|]. destruct (scope_get sc' (iname p)); [discriminate|].
+           unfold builtin_name in Ebi. pose proof (erased_not_builtin bs) as Hnb. unfold builtin_name in Hnb.
+           destruct (assoc_str builtin_idents (erased bs)); [discriminate|]. destruct (assoc_str builtin_idents (iname p)); [discriminate|].
            destruct (mode_eqb m ModeLet); [exact I|exact Hgen].
     + cbn [map]. destruct (mode_eqb m ModeLet); [exact I|].
       change (sk_ident bs p :: sk_ident bs p2 :: map (sk_ident bs) r) with (map (sk_ident bs) (p :: p2 :: r)). apply write_parts_sk.
@@ -315,7 +350,7 @@ Section Prog.
 Variables (sc sc' : scope).
 Hypothesis Hsc : scope_sim sc sc'.
 Let bs := map fst sc'.
-Hypothesis Hempty : bound bs [] = false.
+Let Hempty : bound bs (erased bs) = false := erased_unbound bs.
 
 Lemma special_aliases : special bs w_left = true /\ special bs w_right = true /\ special bs w_true = true.
 Proof. unfold special. rewrite true_is_builtin. repeat split; reflexivity. Qed.
@@ -335,11 +370,11 @@ Proof.
     destruct (scope_get sc (iname p)), (scope_get sc' (iname p)); try contradiction; [reflexivity|].
     reflexivity.
   - apply Bool.orb_false_iff in Es as [Es Eb]. apply Bool.orb_false_iff in Es as [Ea Ebi].
-    unfold bs in Eb, Hempty. rewrite scope_get_bound in Eb.
-    rewrite <- (scope_sim_keys _ _ Hsc), scope_get_bound in Hempty.
-    pose proof empty_not_builtin as Hnb. unfold builtin_name in Hnb, Ebi.
-    destruct (assoc_str builtin_idents []); [discriminate|]. destruct (assoc_str builtin_idents (iname p)); [discriminate|].
-    destruct (scope_get sc []); [discriminate|]. destruct (scope_get sc' (iname p)); [discriminate|]. reflexivity.
+    pose proof Hempty as He. unfold bs in Eb. rewrite scope_get_bound in Eb.
+    unfold bs in He at 1. rewrite <- (scope_sim_keys _ _ Hsc), scope_get_bound in He. fold bs in He.
+    pose proof (erased_not_builtin bs) as Hnb. unfold builtin_name in Hnb, Ebi.
+    destruct (assoc_str builtin_idents (erased bs)); [discriminate|]. destruct (assoc_str builtin_idents (iname p)); [discriminate|].
+    destruct (scope_get sc (erased bs)); [discriminate|]. destruct (scope_get sc' (iname p)); [discriminate|]. reflexivity.
 Qed.
 
 Lemma rewrite_cond_sk e : rewrite_simple_cond sc (sk_e bs e) = sk_e bs (rewrite_simple_cond sc' e).
@@ -452,7 +487,7 @@ Proof.
     2: exact I.
     assert (outer = outer') by (destruct (str_eqb _ w_inner || _); [congruence|]; destruct (str_eqb _ w_leftouter); congruence). subst outer'.
     rewrite build_join_cond_sk.
-    pose proof (wx_sk sc sc' ModeJoin Hsc Hempty (build_join_cond sc' conds) WPlain) as Hw. fold bs in Hw. unfold wexpr.
+    pose proof (wx_sk sc sc' ModeJoin Hsc (build_join_cond sc' conds) WPlain) as Hw. fold bs in Hw. unfold wexpr.
     destruct (wx (mkCtx sc ModeJoin) WPlain (sk_e bs (build_join_cond sc' conds))) as [c|],
              (wx (mkCtx sc' ModeJoin) WPlain (build_join_cond sc' conds)) as [c'|]; cbn [res_sim bind dres_sim] in *; try contradiction; [|exact I].
     rewrite (Forall2_len _ _ _ He). apply snoc_sim; [exact He|]. repeat split. exact Hw.
@@ -475,12 +510,11 @@ Section WriteSk.
 Variables (sc sc' : scope) (source source' : str).
 Hypothesis Hsc : scope_sim sc sc'.
 Let bs := map fst sc'.
-Hypothesis Hempty : bound bs [] = false.
 Let c := mkCtx sc ModeDefault.
 Let c' := mkCtx sc' ModeDefault.
 
 Lemma wexpr_sk e : res_sim (wexpr c (sk_e bs e)) (wexpr c' e).
-Proof. apply (wx_sk sc sc' ModeDefault Hsc Hempty). Qed.
+Proof. apply (wx_sk sc sc' ModeDefault Hsc). Qed.
 
 Lemma map_res_sim {A} (f f' : A -> res (list piece)) (g : A -> A) l :
   (forall a, res_sim (f (g a)) (f' a)) -> Forall2 res_sim (map f (map g l)) (map f' l).
@@ -569,54 +603,48 @@ Qed.
 End WriteSk.
 
 (** ** the statement loop and the whole program *)
-Definition no_empty_let (ss : list stmt) : Prop :=
-  Forall (fun s => match s with SLet _ n _ _ => iname n <> [] | STab _ => True end) ss.
-
 Definition loop_sim (r r' : res (scope * option tabular)) : Prop :=
   match r, r' with
-  | Ok (s1, q1), Ok (s1', q1') =>
-    scope_sim s1 s1' /\ bound (map fst s1') [] = false /\ q1 = option_map (sk_tab (map fst s1')) q1'
+  | Ok (s1, q1), Ok (s1', q1') => scope_sim s1 s1' /\ q1 = option_map (sk_tab (map fst s1')) q1'
   | Err _, Err _ => True
   | _, _ => False
   end.
 
-Lemma stmt_loop_sk : forall ss sc sc' q', no_empty_let ss -> scope_sim sc sc' -> bound (map fst sc') [] = false ->
+Lemma stmt_loop_sk : forall ss sc sc' q', scope_sim sc sc' ->
   loop_sim (stmt_loop sc (option_map (sk_tab (map fst sc')) q')
               (sk_stmts (map fst sc') (match q' with Some _ => true | None => false end) ss))
            (stmt_loop sc' q' ss).
 Proof.
-  induction ss as [|s r IH]; intros sc sc' q' Hne Hsc He.
-  - cbn [sk_stmts stmt_loop loop_sim]. repeat split; assumption.
-  - inversion Hne as [|? ? Hs Hr]; subst. destruct s as [kw name asp x|t]; cbn [sk_stmts stmt_loop].
+  induction ss as [|s r IH]; intros sc sc' q' Hsc.
+  - cbn [sk_stmts stmt_loop loop_sim]. split; [assumption|reflexivity].
+  - destruct s as [kw name asp x|t]; cbn [sk_stmts stmt_loop].
     + destruct q' as [t'|]; cbn [option_map].
-      * apply (IH sc sc' (Some t') Hr Hsc He).
-      * pose proof (wx_sk sc sc' ModeLet Hsc He x WOperand) as Hw. unfold woperand.
+      * apply (IH sc sc' (Some t') Hsc).
+      * pose proof (wx_sk sc sc' ModeLet Hsc x WOperand) as Hw. unfold woperand.
         destruct (wx (mkCtx sc ModeLet) WOperand (sk_e (map fst sc') x)) as [v|],
                  (wx (mkCtx sc' ModeLet) WOperand x) as [v'|]; cbn [res_sim bind] in *; try contradiction; [|exact I].
         cbn [sk_keep iname].
-        apply (IH ((iname name, v) :: sc) ((iname name, v') :: sc') None Hr).
-        -- constructor; [split; [reflexivity|exact Hw]|exact Hsc].
-        -- cbn [map fst bound existsb]. fold (bound (map fst sc') []). rewrite He.
-           destruct (iname name); [congruence|reflexivity].
+        apply (IH ((iname name, v) :: sc) ((iname name, v') :: sc') None).
+        constructor; [split; [reflexivity|exact Hw]|exact Hsc].
     + destruct q' as [t'|]; cbn [option_map]; [exact I|].
-      apply (IH sc sc' (Some t) Hr Hsc He).
+      apply (IH sc sc' (Some t) Hsc).
 Qed.
 
 Lemma scope_sim_refl sc : scope_sim sc sc.
 Proof. induction sc; constructor; [split; reflexivity|assumption]. Qed.
 
-Theorem compile_stmts_sk source source' params ss : no_empty_let ss -> bound (map fst params) [] = false ->
+Theorem compile_stmts_sk source source' params ss :
   res_sim (compile_stmts source params (sk_stmts (map fst params) false ss)) (compile_stmts source' params ss).
 Proof.
-  intros Hne He. unfold compile_stmts.
+  unfold compile_stmts.
   set (sc0 := map (fun kv : str * str => (fst kv, [PRaw (snd kv)])) params).
   assert (Hk : map fst sc0 = map fst params) by (unfold sc0; rewrite map_map; reflexivity).
-  pose proof (stmt_loop_sk ss sc0 sc0 None Hne (scope_sim_refl sc0) ltac:(rewrite Hk; exact He)) as HL.
+  pose proof (stmt_loop_sk ss sc0 sc0 None (scope_sim_refl sc0)) as HL.
   cbn [option_map] in HL. rewrite Hk in HL.
   destruct (stmt_loop sc0 None (sk_stmts (map fst params) false ss)) as [[s1 q1]|],
            (stmt_loop sc0 None ss) as [[s1' q1']|]; cbn [loop_sim bind fst snd] in *; try contradiction; [|exact I].
-  destruct HL as (Hsc & He1 & ->). destruct q1' as [t|]; cbn [option_map]; [|exact I].
-  pose proof (split_queries_sk s1 s1' Hsc He1 t) as Hsp.
+  destruct HL as (Hsc & ->). destruct q1' as [t|]; cbn [option_map]; [|exact I].
+  pose proof (split_queries_sk s1 s1' Hsc t) as Hsp.
   destruct (split_queries s1 [] (sk_tab (map fst s1') t)) as [subs|], (split_queries s1' [] t) as [subs'|];
     cbn [dres_sim bind] in *; try contradiction; [|exact I].
   apply Forall2_rev in Hsp. destruct Hsp as [|q q' rc rc' Hq Hrc]; [exact I|].
@@ -629,13 +657,12 @@ Qed.
 (** two programs with the same skeleton compile alike: both fail, or both give piece lists that
     differ only in the payload of identifier, string and number pieces *)
 Theorem same_skeleton_same_pieces s1 s2 params ss1 ss2 :
-  no_empty_let ss1 -> no_empty_let ss2 -> bound (map fst params) [] = false ->
   sk_stmts (map fst params) false ss1 = sk_stmts (map fst params) false ss2 ->
   res_sim (compile_stmts s1 params ss1) (compile_stmts s2 params ss2).
 Proof.
-  intros H1 H2 He Hsk.
-  eapply res_sim_trans; [apply res_sim_sym, (compile_stmts_sk s1 s1 params ss1 H1 He)|].
-  rewrite Hsk. apply (compile_stmts_sk s1 s2 params ss2 H2 He).
+  intros Hsk.
+  eapply res_sim_trans; [apply res_sim_sym, (compile_stmts_sk s1 s1 params ss1)|].
+  rewrite Hsk. apply (compile_stmts_sk s1 s2 params ss2).
 Qed.
 
 (** ** from pieces to tokens and bytes *)
@@ -664,15 +691,15 @@ From PQL Require Import Proofs.ParsedWf Proofs.SqlGlueProg Proofs.LexTokOk.
     other has one.  No content can open a comment, close a quote or start a new clause. *)
 Theorem structure_independent_of_content s1 s2 ss1 ss2 ps1 :
   parse s1 = ParseOk ss1 -> parse s2 = ParseOk ss2 ->
-  Forall names_ok_stmt ss1 -> Forall names_ok_stmt ss2 -> no_empty_let ss1 -> no_empty_let ss2 ->
+  Forall names_ok_stmt ss1 -> Forall names_ok_stmt ss2 ->
   sk_stmts [] false ss1 = sk_stmts [] false ss2 ->
   compile [] s1 = COk ps1 ->
   exists ps2 ts1 ts2, compile [] s2 = COk ps2 /\
     sql_lex ClickHouse (render ps1) = Some ts1 /\ sql_lex ClickHouse (render ps2) = Some ts2 /\
     map shape_of ts1 = map shape_of ts2.
 Proof.
-  intros P1 P2 N1 N2 E1 E2 Hsk C1.
-  pose proof (same_skeleton_same_pieces s1 s2 [] ss1 ss2 E1 E2 eq_refl Hsk) as Hsim.
+  intros P1 P2 N1 N2 Hsk C1.
+  pose proof (same_skeleton_same_pieces s1 s2 [] ss1 ss2 Hsk) as Hsim.
   unfold compile in C1 |- *. rewrite P1 in C1. rewrite P2.
   destruct (compile_stmts s1 [] ss1) as [q1|] eqn:Q1; [|discriminate]. injection C1 as <-.
   destruct (compile_stmts s2 [] ss2) as [q2|] eqn:Q2; cbn [res_sim] in Hsim; [|contradiction].
